@@ -260,7 +260,7 @@ TRUSTED_BASE = [
     "Coq 8.16.1 kernel (coqc; coqchk in the thorough tier); vm_compute used, native_compute not used",
     "axioms: none (Print Assumptions under each property theorem is recorded in this file under 'assumptions_printed')",
     "extraction: ExtrOcamlBasic only (bool, option, unit, prod, list, sumbool, sumor mapped to OCaml; N/positive/nat kept as Coq datatypes), OCaml 4.13.1, ocaml/driver.ml s-expression reader/printer",
-    "translator harness/cmd/translate (go/ast): regenerates coq/gen/Extracted.v from /repo on every run",
+    "translator harness/cmd/translate (go/ast, go/types): regenerates on every run coq/gen/Extracted.v (tables, regexp sources, literals), gen/FixtureDumps.v, and gen/GoFuns.v = pkg/generator's FuncToString/AssignmentToString/ManipulatorToString and pkg/generator/model's String()/RetError()/loopVars/FullType translated statement by statement into Gallina (gofun.go; proofs/GenTieProofs.v proves Gen.v equal to them)",
     "correspondence harness harness/cmd/vh: generators, dumper (go/packages, go/types), projections, oracles",
     "hand-written model of pkg/config, pkg/runner, pkg/parser, pkg/builder, pkg/util, pkg/option, pkg/generator tied by correspondence; go/printer, go/format, x/tools/imports, go list, the OS are oracles outside the model",
 ]
